@@ -509,3 +509,7 @@ Definition chk_issued (i : (N * N) * list range) (o : list range * (N * N)) : bo
 Definition chk_encio (i : (N * N * N) * (N * N * N) * list range) (o : outcome (list bytes)) : bool :=
   let '((len, a, b), (bs, mx, chunk), rs) := i in
   obytes_eqb (encodings_io_submit (gen_file len a b) bs mx chunk rs) o.
+
+(* the harness evaluates the class predicate in Rust; it must be the predicate of the theorem *)
+Definition chk_class (i : (N * N) * list range) (o : bool) : bool :=
+  let '((bs, mx), rs) := i in Bool.eqb (Known_C30_request_shape bs mx rs) o.
